@@ -15,6 +15,10 @@ SEATS = 'NESW'
 
 
 def deal_from_seed(seed) -> Dict[str, frozenset]:
+    if isinstance(seed, str) and seed.startswith('onesuit:'):
+        # every seat holds one complete suit (seat i holds suit (i + rot) % 4): results of 0 and 13 tricks, a ruff on every trick
+        rot = int(seed.split(':')[1])
+        return {s: frozenset(range(((i + rot) % 4) * 13, ((i + rot) % 4) * 13 + 13)) for i, s in enumerate(SEATS)}
     r = random.Random(f'deal-{seed}')
     cs = list(range(52))
     r.shuffle(cs)
@@ -22,7 +26,7 @@ def deal_from_seed(seed) -> Dict[str, frozenset]:
 
 
 def dda_from_seed(seed):
-    r = random.Random(f'dda-{seed}')
+    r = random.Random(f'dda-{seed}')        # (a str seed such as 'onesuit:2' is fine too)
     return {p: {s: r.randrange(14) for s in ('C', 'D', 'H', 'S', 'NT')} for p in SEATS}
 
 
